@@ -571,6 +571,9 @@ pub use offset::LocalResult;
 pub use offset::MappedLocalTime;
 #[doc(inline)]
 pub use offset::{FixedOffset, Offset, TimeZone, Utc};
+#[cfg(all(chrono_verif, unix, feature = "clock"))]
+#[doc(hidden)]
+pub use offset::local::__verif_tz;
 
 pub mod round;
 pub use round::{DurationRound, RoundingError, SubsecRound};
